@@ -3,7 +3,7 @@ From AQ Require Import Lib.Bytes Lib.ExtractBase Chain.Store Chain.Crash.
 Require Extraction.
 Require Import ExtrOcamlBasic.
 Extraction "../ocaml/chain/model.ml" base_anchor
-  init_state insert_chain insert_header_chain set_head reopen step run
+  init_state insert_chain insert_header_chain set_head reopen rollback step run
   canon number_of header_of body_of receipts_of td_of lookup_of has_state head_ptr
   get_transaction get_receipt log_of replay apply_wop
   genesis_disk open_db crash_disk.
